@@ -307,7 +307,9 @@ def exec_case(p, res):
     err = gen.fro(gen.dense(y) - exact)
     ratio = err / (p['eps'] * ne)
     if not err <= C * p['eps'] * ne + 1e-12 * ne:
-        out.append(core.violation(PROP, 'ACCURACY', api, 'error', 'relative error %.3g = %.3g * eps (eps=%.0e), ranks %s, %d requests' % (err / ne, ratio, p['eps'], gen.ints(y.R), peer.calls), desc))
+        blow = max(float(c.abs().max()) for c in y.cores) / max(float(exact.abs().max()), 1e-300)
+        out.append(core.violation(PROP, 'ACCURACY', api, 'error', 'relative error %.3g = %.3g * eps (eps=%.0e), ranks %s, %d requests, largest core entry / largest exact entry = %.3g' % (
+            err / ne, ratio, p['eps'], gen.ints(y.R), peer.calls, blow), desc, extra={'core_blowup': blow, 'target': p['target']}))
     elif ratio > 1.0:
         res['near'].append((round(ratio, 3), fam))
         core.bump(stats, 'probe.ratio_above_1')
